@@ -792,6 +792,16 @@ qtreetbl_obj_t qtreetbl_find_nearest(qtreetbl_t *tbl, const void *name,
         if (newmem) {
             retobj.name = qmemdup(obj->name, obj->namesize);
             retobj.data = qmemdup(obj->data, obj->datasize);
+            if (retobj.name == NULL
+                || (retobj.data == NULL && obj->data != NULL
+                    && obj->datasize > 0)) {
+                free(retobj.name);
+                free(retobj.data);
+                memset((void *) &retobj, 0, sizeof(retobj));
+                errno = ENOMEM;
+                qtreetbl_unlock(tbl);
+                return retobj;
+            }
         }
         // set travel info to be used for iteration in getnext()
         retobj.tid = tbl->tid;
